@@ -148,6 +148,15 @@ def build_ops(seed: int, docs: dict[str, dict], tier: str, out_mode: str = "expl
                         "persistent": r.random() < 0.5})
     # a history always ends with a successful overwrite generation so that convergence is judged
     ops.append({"op": "GEN", "doc": r.choice(names), "meta": meta if not mixed_meta else r.choice(METAS), "overwrite": True})
+    # --file-encoding: one value for the whole history, in a tenth of the histories another one per command (the tree must
+    # converge to what a fresh generation WITH THE CURRENT OPTIONS writes)
+    enc = r.choice([None, None, None, None, None, None, "utf-16", "cp1252", "utf-8-sig"])
+    per_op = r.random() < 0.1
+    for o in ops:
+        if "doc" in o:
+            e = r.choice([None, "utf-16", "utf-8-sig", "cp1252"]) if per_op else enc
+            if e:
+                o["enc"] = e
     if tier == "thorough" and r.random() < 0.5:
         ops.append({"op": "ENUMCRASH", "doc": r.choice(names), "meta": meta, "stride": 1})
     elif tier == "quick" and r.random() < 0.1:
@@ -262,6 +271,8 @@ class World:
         a = ["generate", "--path", self.docpaths[op["doc"]], "--config", self.cfg, "--meta", op["meta"]]
         if op.get("overwrite"):
             a.append("--overwrite")
+        if op.get("enc"):
+            a += ["--file-encoding", op["enc"]]
         if self.templates_dir:
             a += ["--custom-template-path", self.templates_dir]
         target = out if out is not None else ((self.out_arg or self.O) if self.explicit else None)
@@ -271,7 +282,7 @@ class World:
 
     def fresh(self, op: dict) -> dict:
         """What the real generator writes into an empty location, in a separate sandbox."""
-        key = f"{op['doc']}|{op['meta']}"
+        key = f"{op['doc']}|{op['meta']}|{op.get('enc')}"
         if key not in self.fresh_cache:
             base = os.path.join(self.sandbox, "fresh", hashlib.sha256(key.encode()).hexdigest()[:12])
             os.makedirs(base)
@@ -638,7 +649,7 @@ def _shape(o: dict) -> str:
 
 
 def _brief(o: dict) -> dict:
-    return {k: v for k, v in o.items() if k in ("op", "doc", "meta", "overwrite", "k", "torn", "errno", "action", "where", "n_ops", "hard", "persistent")}
+    return {k: v for k, v in o.items() if k in ("op", "doc", "meta", "overwrite", "k", "torn", "errno", "action", "where", "n_ops", "hard", "persistent", "enc")}
 
 
 # ---------------------------------------------------------------------- shrinking
@@ -677,6 +688,8 @@ def shrink_candidates(spec: dict) -> list[dict]:
                 out.append(with_ops(ops[:i] + [dict(o, persistent=False)] + ops[i + 1 :]))
             if o.get("torn") is not None:
                 out.append(with_ops(ops[:i] + [dict(o, torn=None)] + ops[i + 1 :]))
+        if o.get("enc"):
+            out.append(with_ops([{k: v for k, v in x.items() if k != "enc"} for x in ops]))
         if o.get("meta") not in (None, "none"):
             out.append(with_ops([dict(x, meta="none") if "meta" in x else x for x in ops]))
             break
